@@ -47,8 +47,8 @@ ASSUMPTIONS = [
     'a "--key value" secret cannot start with "=" (that spelling is the '
     '"--key = value" rendering); the same holds after a command flag that '
     'is itself "--<key>"',
-    'masks are literal words without backslashes or quotes (the mask is '
-    'spliced into a regex replacement template)',
+    'masks are words without quotes or whitespace; backslashes and group '
+    'references in a mask are plain characters',
     'neutral text contains no sanitize key (checked against the pinned list '
     'and the live list), no "--", and no word starting with "-"',
     'after a dict/JSON-style rendering no quote character occurs later in '
@@ -75,7 +75,10 @@ SUITE_KEYS = frozenset((
     'secret_uuid', 'token', 'fernetkey', 'sslkey', 'passphrase',
     'keystonecredential'))
 
-MASKS = (None, '***', '???', '****', '<hidden>', 'XXX', '[masked]')
+MASKS = (None, '***', '???', '****', '<hidden>', 'XXX', '[masked]',
+         # the mask is data: backslashes and group references in it are not
+         # instructions to the regex engine
+         'C:\\masked', '\\1', '\\g<0>', '[\\hidden]', 'x\\', '\\n')
 CASES = ('lower', 'upper', 'capital', 'alternating')
 
 FD_CARET = 'fd_bare_caret'
@@ -142,7 +145,10 @@ QUOTE_FREE = tuple(n for n, r in RENDERINGS.items()
 # admin_ + passphrase, ...)
 PREFIXES = ('', 'node.session.auth.', 'original_', 'ipmi_', 'x.', 'new_',
             'admin', 'admin_', 'auth_', 'chap', 'secret_', 'sys_', 'db_')
-FLAGS = ('-v', '--flag', '--password', '-p')
+# a flag is one or two dashes and a name of ASCII letters and underscores
+# (what the key-flag-value patterns accept)
+FLAGS = ('-v', '--flag', '--password', '-p', '--new_value', '--from_env',
+         '-o_value', '--Value', '-V', '--x', '--_')
 PADS = ('', ' ', '\n      ', '\t')
 
 
@@ -732,8 +738,72 @@ def pairs_table(col, key):
     col.exhaustive.setdefault(sub, True)
 
 
+def first_use_threads(col, trials, nthreads=8):
+    """Schedules: the first use of a key in a process, by several threads
+    at once.  The module is re-imported (importlib.reload) so that whatever
+    it builds lazily is built again, then `nthreads` threads released by a
+    barrier each mask their own rendering of the same key; every result is
+    judged by the ordinary oracle.  The interpreter's thread switch interval
+    is lowered so that the threads really interleave."""
+    import importlib
+    import sys
+    import threading
+    from oslo_utils import strutils
+    sub = 'threads'
+    rnames = [r for r in RNAMES]
+    saved = sys.getswitchinterval()
+    sys.setswitchinterval(1e-6)
+    try:
+        for t in range(trials):
+            importlib.reload(strutils)
+            key = PINNED_KEYS[(t * 7) % len(PINNED_KEYS)]
+            cases = []
+            for i in range(nthreads):
+                r = rnames[(t * nthreads + i * 5) % len(rnames)]
+                item = {'key': key, 'case': 'lower', 'r': r,
+                        'secret': 'hunter2+Zq%d' % i}
+                if '{f}' in RENDERINGS[r][0]:
+                    item['flag'] = '-v'
+                if '{p}' in RENDERINGS[r][0]:
+                    item['prefix'] = 'x.'
+                cases.append({'mask': None, 'threads': nthreads, 'trial': t,
+                              'parts': ['ctx ', item, ' tail']})
+            barrier = threading.Barrier(nthreads)
+            failures = [None] * nthreads
+
+            def work(i):
+                barrier.wait()
+                try:
+                    check_message(cases[i], sub)
+                except Violation as v:
+                    failures[i] = v
+                except BaseException as e:     # harness trouble
+                    failures[i] = e
+
+            ths = [threading.Thread(target=work, args=(i,))
+                   for i in range(nthreads)]
+            for th in ths:
+                th.start()
+            for th in ths:
+                th.join()
+            for i, f in enumerate(failures):
+                col.case(sub, (t, i), True,
+                         'first-use/' + RENDERINGS[cases[i]['parts'][1]['r']][2],
+                         cases[i])
+                if isinstance(f, Violation):
+                    raise f
+                if f is not None:
+                    raise core.HarnessError('thread %d: %r' % (i, f))
+    finally:
+        sys.setswitchinterval(saved)
+        importlib.reload(strutils)
+    col.exhaustive.setdefault(sub, False)
+
+
 def tasks(tier, seed):
-    out = [Task('probe', probe_known)]
+    out = [Task('probe', probe_known),
+           Task('threads', first_use_threads,
+                trials=12 if tier == 'quick' else 120)]
     for key in (PINNED_KEYS if tier == 'thorough' else PINNED_KEYS[::5]):
         out.append(Task('pairs', pairs_table, key=key))
     if tier == 'quick':
@@ -759,7 +829,10 @@ def tasks(tier, seed):
 def replay(rec):
     case = rec['case']
     sub = rec.get('sub', 'replay')
-    if 'parts' in case:
+    if case.get('threads'):
+        first_use_threads(core.Collector(), trials=case['trial'] + 1,
+                          nthreads=case['threads'])
+    elif 'parts' in case:
         check_message(case, sub)
     elif 'nokey' in case:
         from oslo_utils import strutils
